@@ -174,6 +174,8 @@ class QueryHandler:
             next_token = self._get_next_token()
             if next_token and next_token.kind == Token.Wildcard:
                 expr = ExpressionWildcardNew(next_token)
+            elif next_token and next_token.kind in (Token.LogicalGroupEnd, Token.DescendantGroupEnd, Token.ExactMatchEnd):
+                raise ValueError(f"Parse error: Unmatched closing '{next_token.text}'")
             elif next_token:
                 expr = Expression(next_token)
             else:
